@@ -359,30 +359,42 @@ def normpath(ctx, p):
     if l is not None:
         import posixpath
         return z3.StringVal(posixpath.normpath(l))
-    r = normpath_f(p)
     key = ('normpath', p.get_id())
-    if key not in ctx.notes:
-        ctx.notes[key] = True
-        ctx.used_axioms.add('posixpath.normpath axioms')
-        # result is never empty, has no trailing slash unless it is all
-        # slashes ('/' or '//'), is idempotent, keeps clean paths.
-        ctx.assume(r != EMPTY)
-        ctx.assume(z3.Or(r == SLASH, r == z3.StringVal('//'),
-                         z3.Not(z3.SuffixOf(SLASH, r))))
-        ctx.assume(normpath_f(r) == r)
-        ctx.assume(z3.Implies(clean_path(p), r == p))
-        # absolute stays absolute, relative stays relative
-        ctx.assume(z3.PrefixOf(SLASH, r) == z3.PrefixOf(SLASH, p))
-        # trailing slashes are irrelevant: normpath(q + '/'*k) = normpath(q)
-        q = rstrip_slashes(ctx, p)
+    if key in ctx.notes:
+        return ctx.notes[key]
+    r = normpath_f(p)
+    ctx.used_axioms.add('posixpath.normpath axioms')
+    # result is never empty, has no trailing slash unless it is all
+    # slashes ('/' or '//'), is idempotent, keeps clean paths.
+    ctx.assume(r != EMPTY)
+    ctx.assume(z3.Or(r == SLASH, r == z3.StringVal('//'),
+                     z3.Not(z3.SuffixOf(SLASH, r))))
+    ctx.assume(normpath_f(r) == r)
+    ctx.assume(z3.Implies(clean_path(p), r == p))
+    # absolute stays absolute, relative stays relative
+    ctx.assume(z3.PrefixOf(SLASH, r) == z3.PrefixOf(SLASH, p))
+    # trailing slashes are irrelevant: normpath(q + '/'*k) = normpath(q)
+    q = rstrip_slashes(ctx, p)
+    if q.get_id() != p.get_id():
         ctx.assume(z3.Implies(q != EMPTY, r == normpath_f(q)))
-        # no '.' or empty component survives: basename(r) not in {'', '.'}
-        # unless r is '.', '/', '//'
+    # case split on the shape of the result so that later joins/dirnames
+    # stay structural: '/', '//' or a path without trailing slash
+    d = ctx.fork([r == SLASH, r == z3.StringVal('//'),
+                  z3.And(r != SLASH, r != z3.StringVal('//'))], 'normpath-shape')
+    if d == 0:
+        res = SLASH
+    elif d == 1:
+        res = z3.StringVal('//')
+    else:
+        mark_noendslash(ctx, r)
+        # no '.' or empty last component survives
         _h, t = split_last_slash(ctx, r)
-        ctx.assume(z3.Or(r == z3.StringVal('.'), r == SLASH,
-                         r == z3.StringVal('//'),
+        ctx.assume(z3.Or(r == z3.StringVal('.'),
                          z3.And(t != EMPTY, t != z3.StringVal('.'))))
-    return r
+        res = r
+    ctx.notes[key] = res
+    ctx.notes[('normpath', res.get_id())] = res     # idempotent
+    return res
 
 
 def is_abs_clean(p):
